@@ -2,6 +2,8 @@
    Statements only; proofs are in Proofs/LedgerProofs.v. *)
 From Coq Require Import ZArith QArith List.
 From PB Require Import Lib.PySlice Model.Ledger Proofs.LedgerProofs Gen.GenLedger Proofs.LedgerGen.
+From PB Require Import Model.Band Model.Getitem Gen.GenGetitem Proofs.GetitemProofs.
+Import ListNotations.
 Open Scope Z_scope.
 
 (* sound l l' off stride :=  0 <= len l'  /\ 0 < stride /\ 0 <= off /\ 0 < rate l' /\ rate l' == rate l / stride
@@ -70,6 +72,21 @@ Theorem C01_shift_crop_no_wrap : forall l start stop l' off stride,
   (forall k, 0 <= k < len l' -> start <= off + k < len l + stop).
 Proof. exact shift_crop_no_wrap. Qed.
 
+(* z[index] in full: the index dispatch of Signal.__getitem__ / RadioSignal.__getitem__ is REGENERATED from core.py on every run
+   (which items must be slices, which item goes to _time_slice, what is refused); a successful z[index] - whatever else the index
+   holds - is time_slice on item 0, so C01_step / C01_slice above apply to it; anything but a slice on the time axis is IndexError. *)
+Theorem C01_generated_getitem : forall l bd index,
+  signal_getitem l index = gen_signal_getitem l index /\ radio_getitem l bd index = gen_radio_getitem l bd index.
+Proof. exact (fun l bd index => conj (signal_getitem_generated l index) (radio_getitem_generated l bd index)). Qed.
+Theorem C01_getitem : forall l bd index l' off st r,
+  signal_getitem l index = GOk l' off st r \/ radio_getitem l bd index = GOk l' off st r ->
+  exists a b c rest, index = ISlice a b c :: rest /\ time_slice l a b c = Ok l' off st.
+Proof. exact getitem_is_time_slice. Qed.
+Theorem C01_getitem_refuses : forall l bd rest,
+  signal_getitem l (IOther :: rest) = GIndex /\ radio_getitem l bd (IOther :: rest) = GIndex /\
+  signal_getitem l [] = GIndex /\ radio_getitem l bd [] = GIndex.
+Proof. exact getitem_refuses_all. Qed.
+
 Print Assumptions C01_step.
 Print Assumptions C01_pipeline.
 Print Assumptions C01_slice.
@@ -79,3 +96,5 @@ Print Assumptions C01_contains_samples.
 Print Assumptions C01_model_meets_spec.
 Print Assumptions C01_shift_crop_no_wrap.
 Print Assumptions C01_generated_core.
+Print Assumptions C01_generated_getitem.
+Print Assumptions C01_getitem.
